@@ -52,7 +52,7 @@ Theorem usable_again_once_the_line_completes :
     Inv w -> no_panic I sw_now ops w ->
     w_async (run_story_ops I sw_now ops w) = false ->
     between_calls (run_story_ops I sw_now ops w).
-Proof. exact (fun I => BetweenCalls.between_calls_reachable I sw_now now_cont_check_first). Qed.
+Proof. exact (fun I => BetweenCalls.between_calls_reachable I sw_now now_cont_check_first now_counter_dec_first). Qed.
 Check usable_again_once_the_line_completes :
   forall (I : iface) (ops : list story_op) (w : world),
     Inv w -> no_panic I sw_now ops w ->
